@@ -94,6 +94,10 @@ usage:
 		if len(s) < 2 && s[0] != "readonly" {
 			return nil, fmt.Errorf("missing value: %s", s[0])
 		}
+		if len(s) == 2 && s[0] == "readonly" {
+			// a flag: readonly=no would otherwise mean read-only
+			return nil, fmt.Errorf("readonly takes no value")
+		}
 		switch s[0] {
 		case "columns":
 			err = convertSchema(internal.UnquoteAll(s[1]), table)
@@ -105,7 +109,7 @@ usage:
 			if err != nil {
 				return nil, fmt.Errorf("arg: %w", err)
 			}
-			if i == 1 {
+			if i == 1 || i < 0 {
 				// a branch factor of 1 makes the tree's layer computation loop forever
 				return nil, fmt.Errorf("arg: entries_per_node must be at least 2")
 			}
@@ -114,6 +118,9 @@ usage:
 			i, err := strconv.ParseInt(s[1], 0, 32)
 			if err != nil {
 				return nil, fmt.Errorf("arg: %w", err)
+			}
+			if i < 0 {
+				return nil, fmt.Errorf("arg: node_cache_entries must not be negative")
 			}
 			table.S3Options.NodeCacheEntries = int(i)
 		case "readonly":
